@@ -496,10 +496,10 @@ def b_shard(tier, sh):
     """One shard = every history that starts with one given first operation (its own visited set: states reached from
     different first operations are explored again, which costs time, not coverage)."""
     st = runner.Stats()
-    # sh[1]: 0 = the whole menu (depth 3 quick / 4 thorough), 1 = the core menu -- five methods, no fill -- to depth 6
+    # sh[1]: 0 = the whole menu (depth 3 quick / 4 thorough), 1 = the core menu -- five methods, no fill -- to depth 5
     core = len(sh) > 1 and sh[1] == 1
     _MENU['methods'], _MENU['fill'] = (CORE_METHODS, False) if core else (METHODS, True)
-    depth = 6 if core else (3 if tier == 'quick' else 4)
+    depth = 5 if core else (3 if tier == 'quick' else 4)
     first_ops = ops(World())
     k = sh[0]
     if k < 0:
@@ -562,7 +562,7 @@ def run(tier, seed):
         'bound': 'part A: functions as C12; steps: one kwoargs name, one posoargs name, autokwoargs, annotate in 3 forms; part B: '
                  '%s; 8 decorated methods, 2 equal-comparing falsy instances + subclass' % (
                      'depth 3 over the whole operation menu (quick)' if tier == 'quick' else
-                     'depth 4 over the whole operation menu and depth 6 over the core menu (five methods, no fill operation)'),
+                     'depth 4 over the whole operation menu and depth 5 over the core menu (five methods, no fill operation)'),
     }
     assumptions = [
         'an application order in which some step raises ValueError is not admissible and is not compared',
